@@ -519,3 +519,12 @@ PROPS["C18"]["rule"] += (" || -C / -f / builddir / positional targets as the REA
     "(one setting builddir) whose commands write a marker naming directory and manifest; -C d, -f alt.ninja, both in either order, x 10 target "
     "lists (none -> `default a`, a, b, both in either order, repeated, ./b, an unknown name alone / first / last); expected exactly: the outputs "
     "built, in which directory, with which manifest's command, where the log lies, exit status 1 and nothing built when a name is unknown.")
+
+PROPS["C19"]["modes"] = PROPS["C19"]["modes"] + ["opts"]
+PROPS["C19"]["needs_n2bin"] = True
+PROPS["C19"]["nontrivial"]["opts"] = (lambda case, impl: True)
+PROPS["C19"]["monitors"] = PROPS["C19"]["monitors"] + ["cliSummaryExact"]
+PROPS["C19"]["rule"] += (" || the summary line and exit status as run_impl of the REAL binary prints them (mode opts; the other modes read the task "
+    "count run::build returns): n copying steps, a second invocation after m sources changed and f failing steps were added, (n, m, f) over 12 "
+    "fixed combinations incl. 0, 1 (singular), 12/11 (thorough: + 40 random): `n2: ran N task(s), now up to date` with N = commands that "
+    "succeeded, `n2: no work to do` exactly when N = 0, neither line and exit status 1 after a failure, all outputs current at the end.")
